@@ -814,7 +814,41 @@ func genCase(t *rapid.T) Case {
 		seed := jpegSeeds[rapid.IntRange(0, len(jpegSeeds)-1).Draw(t, "jpeg")]
 		body = seed
 		dims := []int{0, 1, 8, 16, 255, 256, 4096, 8192, 11585, 16384, 32768, 65535}
-		if rapid.IntRange(0, 3).Draw(t, "patch") != 0 {
+		hdr := rapid.IntRange(0, 9).Draw(t, "hdr")
+		if hdr >= 4 { // frame and scan header fields rewritten, entropy-coded data kept
+			c.Origin = "jpeg-header"
+			var edits []jpegEdit
+			if hdr >= 7 {
+				// Y 2x2 (or 2x1, 1x2), Cb 1x1 and the other chroma component
+				// sampled more densely, on a scan which decodes under any layout
+				// or on real 4:2:0 encoder output
+				y := byte(rapid.SampledFrom([]int{0x22, 0x22, 0x21, 0x12}).Draw(t, "yhv"))
+				dim := rapid.SampledFrom([][2]int{{16, 16}, {64, 48}, {17, 13}}).Draw(t, "dim")
+				sof := byte(rapid.SampledFrom([]int{0xc0, 0xc0, 0xc0, 0xc1, 0xc2}).Draw(t, "sof"))
+				body = tinyJPEG(sof, 8, dim[0], dim[1], []jpegComp{{1, y, 0, 0}, {2, 0x11, 1, 0x11}, {3, 0x11, 1, 0x11}}, []int{0, 1, 2},
+					rapid.SampledFrom([]int{64, 600}).Draw(t, "nz"))
+				if rapid.IntRange(0, 2).Draw(t, "real") == 0 {
+					for _, j := range jpegSeeds {
+						if sof, _ := jpegSegments(j); sof >= 0 && sof+10 < len(j) && j[sof+9] == 3 {
+							body = j
+						}
+					}
+				}
+				which := rapid.SampledFrom([]int{2, 2, 2, 1}).Draw(t, "which")
+				edits = append(edits, jpegEdit{jeSampling, which, rapid.SampledFrom([]int{0x12, 0x21, 0x22, 0x22}).Draw(t, "hv")})
+				if rapid.IntRange(0, 2).Draw(t, "more") == 0 {
+					edits = append(edits, drawJPEGEdit(t))
+				}
+			} else {
+				if rapid.IntRange(0, 2).Draw(t, "tiny") != 0 {
+					body = tinyFrame(t)
+				}
+				for i, n := 0, rapid.IntRange(1, 3).Draw(t, "nedit"); i < n; i++ {
+					edits = append(edits, drawJPEGEdit(t))
+				}
+			}
+			body = editJPEGHeader(body, edits)
+		} else if rapid.IntRange(0, 3).Draw(t, "patch") != 0 {
 			c.Origin = "jpeg-dims"
 			h := rapid.SampledFrom(dims).Draw(t, "h")
 			w := rapid.SampledFrom(dims).Draw(t, "w")
@@ -830,7 +864,11 @@ func genCase(t *rapid.T) Case {
 		if rapid.Bool().Draw(t, "hasparm") {
 			p = paramDict(t, "DCTDecode")
 		}
-		switch rapid.IntRange(0, 5).Draw(t, "wrap") {
+		wrap := rapid.IntRange(0, 5).Draw(t, "wrap")
+		if c.Origin == "jpeg-header" && wrap < 4 && rapid.Bool().Draw(t, "plain") {
+			wrap = 5
+		}
+		switch wrap {
 		case 0:
 			body = encodeWith(pdf.FilterFlate{}, body)
 			setChain([]string{"FlateDecode", "DCTDecode"}, []gen.O{oNull(), p})
@@ -1163,4 +1201,244 @@ func lzwFullTable(data []byte, earlyChange bool, clearAfter int, eod bool) []byt
 		out = append(out, byte(acc<<(8-nacc)))
 	}
 	return out
+}
+
+// ---------------------------------------------------------------------------
+// JPEG frame and scan headers
+
+// jpegComp is one component of a frame header (id, sampling byte, Tq) and
+// its entry in the scan header (Td/Ta byte).
+type jpegComp struct{ id, hv, tq, tdta byte }
+
+// tinyJPEG builds a complete JPEG whose two Huffman tables consist of the
+// single one-bit code "0" (DC: category 0, AC: end of block), so that nz
+// zero bytes of entropy-coded data decode as grey blocks under ANY frame
+// layout: header variations are followed by a scan that really runs.
+// scan lists the indices of the frame components named in the SOS.
+func tinyJPEG(sof byte, precision byte, height, width int, comps []jpegComp, scan []int, nz int) []byte {
+	var b bytes.Buffer
+	w := func(p ...byte) { b.Write(p) }
+	w(0xff, 0xd8)
+	for tq := byte(0); tq < 2; tq++ {
+		w(0xff, 0xdb, 0x00, 0x43, tq)
+		w(bytes.Repeat([]byte{1}, 64)...)
+	}
+	w(0xff, sof, 0, byte(8+3*len(comps)), precision, byte(height>>8), byte(height), byte(width>>8), byte(width), byte(len(comps)))
+	for _, c := range comps {
+		w(c.id, c.hv, c.tq)
+	}
+	for _, tcth := range []byte{0x00, 0x10, 0x01, 0x11} {
+		w(0xff, 0xc4, 0x00, 0x14, tcth, 1)
+		w(make([]byte, 15)...)
+		w(0x00)
+	}
+	w(0xff, 0xda, 0, byte(6+2*len(scan)), byte(len(scan)))
+	for _, i := range scan {
+		c := comps[i%len(comps)]
+		w(c.id, c.tdta)
+	}
+	if sof == 0xc2 {
+		w(0x00, 0x00, 0x00) // DC scan of a progressive frame
+	} else {
+		w(0x00, 0x3f, 0x00)
+	}
+	w(make([]byte, nz)...)
+	w(0xff, 0xd9)
+	return b.Bytes()
+}
+
+// jpegSegments returns the offsets of the first frame header (SOF0..SOF2,
+// and the other SOFn) and of the first scan header, or -1.
+func jpegSegments(b []byte) (sof, sos int) {
+	sof, sos = -1, -1
+	i := 2
+	for i+4 <= len(b) {
+		if b[i] != 0xff {
+			i++
+			continue
+		}
+		m := b[i+1]
+		switch {
+		case m == 0xff:
+			i++
+			continue
+		case m == 0xd8 || m == 0x01 || (m >= 0xd0 && m <= 0xd7):
+			i += 2
+			continue
+		case m == 0xd9:
+			return
+		}
+		l := int(b[i+2])<<8 | int(b[i+3])
+		if m >= 0xc0 && m <= 0xcf && m != 0xc4 && m != 0xc8 && m != 0xcc && sof < 0 {
+			sof = i
+		}
+		if m == 0xda {
+			sos = i
+			return
+		}
+		if l < 2 {
+			return
+		}
+		i += 2 + l
+	}
+	return
+}
+
+// jpegEdit is one rewrite of a frame or scan header field.
+type jpegEdit struct{ kind, comp, val int }
+
+const (
+	jeSampling  = iota // sampling byte (H<<4 | V) of frame component comp
+	jeCompID           // identifier of frame component comp
+	jeTq               // quantisation table selector of frame component comp
+	jePrecision        // sample precision
+	jeNf               // number of frame components (the scan keeps its own)
+	jeNfNs             // number of frame and of scan components
+	jeNs               // number of scan components
+	jeTdTa             // Huffman table selectors of scan component comp
+	jeCs               // component selector of scan component comp
+	jeSOF              // frame type marker (SOF0, SOF1, SOF2, ...)
+	nJpegEdits
+)
+
+// editJPEGHeader applies the edits to the first frame and scan header; the
+// entropy-coded data and all tables stay, so decoding proceeds into the scan.
+func editJPEGHeader(in []byte, edits []jpegEdit) []byte {
+	b := append([]byte{}, in...)
+	for _, e := range edits {
+		sof, sos := jpegSegments(b)
+		if sof < 0 || sof+10 > len(b) {
+			return b
+		}
+		nf := int(b[sof+9])
+		fc := sof + 10 + 3*e.comp // frame component entry
+		okF := e.comp < nf && fc+3 <= len(b)
+		ns, sc := 0, 0
+		okS := false
+		if sos >= 0 && sos+5 <= len(b) {
+			ns = int(b[sos+4])
+			sc = sos + 5 + 2*e.comp
+			okS = e.comp < ns && sc+2 <= len(b)
+		}
+		v := byte(e.val)
+		switch e.kind {
+		case jeSampling:
+			if okF {
+				b[fc+1] = v
+			}
+		case jeCompID:
+			if okF {
+				b[fc] = v
+			}
+		case jeTq:
+			if okF {
+				b[fc+2] = v
+			}
+		case jePrecision:
+			b[sof+4] = v
+		case jeSOF:
+			b[sof+1] = v
+		case jeTdTa:
+			if okS {
+				b[sc+1] = v
+			}
+		case jeCs:
+			if okS {
+				b[sc] = v
+			}
+		case jeNf, jeNfNs, jeNs:
+			n := e.val
+			if n < 0 || n > 6 {
+				continue
+			}
+			if e.kind != jeNs && sof+10+3*nf <= len(b) && nf > 0 {
+				var entries []byte
+				for i := 0; i < n; i++ {
+					if i < nf {
+						entries = append(entries, b[sof+10+3*i:sof+13+3*i]...)
+					} else { // further components: copies of the last one with new ids
+						last := b[sof+10+3*(nf-1) : sof+13+3*(nf-1)]
+						entries = append(entries, last[0]+byte(i-nf+1), last[1], last[2])
+					}
+				}
+				seg := append([]byte{}, b[sof:sof+10]...)
+				seg[2], seg[3], seg[9] = 0, byte(8+3*n), byte(n)
+				seg = append(seg, entries...)
+				b = append(b[:sof:sof], append(seg, b[sof+10+3*nf:]...)...)
+				_, sos = jpegSegments(b)
+				if sos >= 0 && sos+5 <= len(b) {
+					ns = int(b[sos+4])
+				}
+			}
+			if e.kind != jeNf && sos >= 0 && ns > 0 && sos+5+2*ns+3 <= len(b) {
+				var entries []byte
+				for i := 0; i < n; i++ {
+					if i < ns {
+						entries = append(entries, b[sos+5+2*i:sos+7+2*i]...)
+					} else {
+						last := b[sos+5+2*(ns-1) : sos+7+2*(ns-1)]
+						entries = append(entries, last[0]+byte(i-ns+1), last[1])
+					}
+				}
+				seg := append([]byte{}, b[sos:sos+5]...)
+				seg[2], seg[3], seg[4] = 0, byte(6+2*n), byte(n)
+				seg = append(seg, entries...)
+				b = append(b[:sos:sos], append(seg, b[sos+5+2*ns:]...)...)
+			}
+		}
+	}
+	return b
+}
+
+var (
+	jpegSamplings = []int{0x11, 0x12, 0x21, 0x22, 0x12, 0x21, 0x22, 0x13, 0x31, 0x14, 0x41, 0x24, 0x42, 0x33, 0x44, 0x10, 0x01, 0x00, 0x23, 0xf1, 0x1f}
+	jpegSelectors = []int{0x00, 0x11, 0x01, 0x10, 0x22, 0x33, 0x03, 0x30, 0x44, 0xff}
+)
+
+func drawJPEGEdit(t *rapid.T) jpegEdit {
+	e := jpegEdit{kind: rapid.SampledFrom([]int{jeSampling, jeSampling, jeSampling, jeSampling, jeCompID, jeTq, jePrecision,
+		jeNf, jeNfNs, jeNs, jeTdTa, jeCs, jeSOF}).Draw(t, "jekind"), comp: rapid.SampledFrom([]int{0, 1, 2, 2, 2, 3}).Draw(t, "jecomp")}
+	switch e.kind {
+	case jeSampling:
+		e.val = rapid.SampledFrom(jpegSamplings).Draw(t, "hv")
+	case jeCompID, jeCs:
+		e.val = rapid.SampledFrom([]int{0, 1, 2, 3, 4, 'R', 'G', 'B', 255}).Draw(t, "id")
+	case jeTq:
+		e.val = rapid.SampledFrom([]int{0, 1, 2, 3, 4, 255}).Draw(t, "tq")
+	case jePrecision:
+		e.val = rapid.SampledFrom([]int{8, 12, 16, 0, 2, 255}).Draw(t, "prec")
+	case jeNf, jeNfNs, jeNs:
+		e.val = rapid.SampledFrom([]int{1, 3, 4, 2, 0, 5}).Draw(t, "ncomp")
+	case jeTdTa:
+		e.val = rapid.SampledFrom(jpegSelectors).Draw(t, "tdta")
+	case jeSOF:
+		e.val = rapid.SampledFrom([]int{0xc0, 0xc1, 0xc2, 0xc3, 0xc9}).Draw(t, "sof")
+	}
+	return e
+}
+
+// tinyFrame draws the layout of a synthetic JPEG.
+func tinyFrame(t *rapid.T) []byte {
+	ncomp := rapid.SampledFrom([]int{3, 3, 3, 1, 4}).Draw(t, "ncomp")
+	comps := make([]jpegComp, ncomp)
+	for i := range comps {
+		comps[i] = jpegComp{id: byte(i + 1), hv: 0x11, tq: byte(min(i, 1))}
+		if i > 0 {
+			comps[i].tdta = 0x11
+		}
+	}
+	if ncomp >= 3 {
+		comps[0].hv = byte(rapid.SampledFrom([]int{0x22, 0x22, 0x21, 0x12, 0x11, 0x41}).Draw(t, "yhv"))
+	}
+	if ncomp == 4 && rapid.Bool().Draw(t, "khv") {
+		comps[3].hv = comps[0].hv
+	}
+	scan := make([]int, ncomp)
+	for i := range scan {
+		scan[i] = i
+	}
+	dim := rapid.SampledFrom([][2]int{{16, 16}, {17, 13}, {64, 48}, {8, 200}, {1, 1}}).Draw(t, "dim")
+	sof := byte(rapid.SampledFrom([]int{0xc0, 0xc0, 0xc0, 0xc1, 0xc2}).Draw(t, "sof"))
+	nz := rapid.SampledFrom([]int{8, 64, 64, 600, 4000}).Draw(t, "nz")
+	return tinyJPEG(sof, 8, dim[0], dim[1], comps, scan, nz)
 }
